@@ -26,7 +26,7 @@ func genC10(m *M, histories, length int) {
 		for v := 0; v < ns; v++ {
 			m.putScalar(v, []string{"zero", "one", "two", "three", "small", "small", "minus_one", "random"}[m.rng.Intn(8)])
 		}
-		fullMuls := 0
+		fullMuls, pows := 0, 0
 		for i := 0; i < length; i++ {
 			r, a := m.rng.Intn(ne), m.rng.Intn(ne)
 			sr, sa := m.rng.Intn(ns), m.rng.Intn(ns)
@@ -36,7 +36,57 @@ func genC10(m *M, histories, length int) {
 			if m.rng.Intn(3) == 0 {
 				sa = sr
 			}
-			switch m.rng.Intn(40) {
+			switch m.rng.Intn(52) {
+			case 40:
+				if pows < 1 { // the validator's square-and-multiply is 256 steps whatever the exponent
+					pows++
+					m.SPow(sr, sa)
+				} else {
+					m.SSquare(sr)
+				}
+			case 41:
+				m.SCSelect(sr, []uint64{0, 1, 2, 1 << 63, m.rng.Uint64()}[m.rng.Intn(5)], sa, m.rng.Intn(ns))
+			case 42:
+				m.SLessOrEqual(sr, sa)
+				m.SIsOne(sa)
+			case 43:
+				m.SBits(sa)
+			case 44:
+				m.EEncodeToGroup(r, m.randBytes(m.rng.Intn(20)), m.dstOf(1+m.rng.Intn(30)))
+			case 45:
+				h := m.EHex(a)
+				m.EDecodeForm(r, "hex", []byte(h))
+			case 46:
+				h := m.SHex(sa)
+				m.SDecodeForm(sr, "hex", []byte(h))
+			case 47:
+				m.SMarshal(sa)
+				m.EMarshal(a)
+				m.EXCoord(a)
+			case 48:
+				switch m.rng.Intn(6) {
+				case 0:
+					m.SPowNil(sr)
+				case 1:
+					m.SMulNil(sr)
+				case 2:
+					m.SAddNil(sr)
+				case 3:
+					m.SSubNil(sr)
+				case 4:
+					m.SSetNil(sr)
+				default:
+					m.SEqualNil(sr)
+				}
+			case 49:
+				m.Order()
+				m.Lengths()
+			case 50:
+				m.SDecodeForm(sr, "bytes", be32(bigN)) // rejected
+				m.SDecodeForm(sr, "unmarshal", m.randBytes(31))
+			case 51:
+				x, y := m.randPoint()
+				m.EDecodeCoords(r, be32(x), be32(y))
 			case 0:
 				m.ENew(r)
 			case 1:
